@@ -29,6 +29,12 @@ P = {'id': 'C01',
               'merged_freqs_cover',
               'ctx_encode_total',
               'xn_encode_total',
+              'ht_deserialize_serialize',
+              'ht_serialized_decodes',
+              'wf_table_prefix_free',
+              'c_deserialize_serialize',
+              'ctx_serialized_decodes',
+              'xn_serialized_decodes',
               'rans_step_inverse',
               'rans_no_overflow',
               'rans_roundtrip',
